@@ -113,6 +113,14 @@ def check_meta(case):
         if why:
             out.append(fail('from_bytes-differs', f'{t} {str(attrs)[:100]} via {conv.__name__}: {why}', **facts))
             break
+    try:
+        a = mido.MetaMessage.from_bytes(list(want))
+        b2 = mido.MetaMessage.from_bytes(list(want))
+        a.time = 31337
+        if a is b2 or b2.time == 31337:
+            out.append(fail('decode-shared', f'{t}: two decodes of the same bytes share state', **facts))
+    except Exception:  # noqa: BLE001
+        pass
     delta = case.get('delta', 0)
     dd = dict(d)
     dd['time'] = delta
